@@ -19,6 +19,8 @@ func runC10(p *core.Prog, r *core.Report) {
 	r.Rule("C10-R3", "error discipline: every Value.Set result in Parse is tested and returned before the next flag is applied; a flagMap miss returns a non-nil error and the *Flag is dereferenced only on the hit edge; every error of the scanner is propagated by Parse", 5)
 	r.Rule("C10-R4", "one assignment per consumed flag: each trip around the scanner loop assigns ArgValue exactly once and advances args at least once (progress)", 2)
 	r.Rule("C10-R5", "parser/type agreement: each numeric Value parses with the strconv parser of its own signedness and bit size, and the parsed value reaches *v without a signedness-changing conversion", 4)
+	r.Rule("C10-R6", "the text recorded for a flag is a constant, the untouched rest of the token after the first '=', or the next token unchanged", 3)
+	r.Rule("C10-R7", "whether the next token is consumed as a value depends only on a token being left, not on its content", 1)
 	r.NotDecided = append(r.NotDecided, "that the accepted language is exactly the documented grammar (which dash/'=' forms are accepted is a value property of the scanner)")
 	r.Trusted = append(r.Trusted, "strconv.ParseInt/ParseUint reject text outside the requested bit size and signedness", "go/ssa")
 
@@ -266,6 +268,137 @@ func runC10(p *core.Prog, r *core.Report) {
 				}
 				r.Check(ok1, "C10-R4", "scanner: one ArgValue assignment per consumed flag", p.FuncPos(scanner), "exactly one per trip around the loop", d1)
 				r.Check(ok2, "C10-R4", "scanner: every iteration consumes at least one token", p.FuncPos(scanner), "args advanced on every trip around the loop", d2)
+			}
+		}
+	}
+
+	// ---- R6 / R7: what ends up in ArgValue
+	{
+		argV := fieldByName(c.Flag, "ArgValue")
+		for f := range c.FromP {
+			for _, ref := range sx.FieldRefs([]*ssa.Function{f}, argV) {
+				fa, ok := ref.Instr.(*ssa.FieldAddr)
+				if !ok {
+					continue
+				}
+				for _, a := range sx.Accesses(fa) {
+					if a.Kind != "write" {
+						continue
+					}
+					cell, ok := a.Val.(*ssa.Alloc)
+					if !ok {
+						continue
+					}
+					stores, _ := sx.CellStores(cell)
+					n := 0
+					for _, sv := range stores {
+						n++
+						cst := fmt.Sprintf("command-line value #%d recorded in %s", n, fnName(f))
+						okV, why := false, ""
+						switch x := sv.(type) {
+						case *ssa.Const:
+							okV, why = true, "constant "+x.String()
+						case *ssa.Slice:
+							if isStringT(x.X.Type()) && x.High == nil {
+								okV, why = true, "the rest of the token after the first '=' ("+sx.ValPath(x.X)+"["+sx.ValPath(x.Low)+":])"
+							} else {
+								why = "a cut-out of the token that stops before its end: a value containing '=' (or anything after the cut) is lost"
+							}
+						case *ssa.UnOp:
+							if sx.Origins(x)["field:FlagSet."+args.Name()] {
+								okV, why = true, "the next token, unchanged"
+							}
+						case *ssa.Extract:
+							if cc, isC := x.Tuple.(*ssa.Call); isC && sx.CalleeName(cc) == "strings.Cut" && x.Index == 1 {
+								okV, why = true, "strings.Cut: everything after the first '='"
+							}
+						}
+						if !okV && why == "" {
+							why = "recorded value " + short(sx.ValPath(sv)) + " is not the untouched remainder of the token (e.g. one element of strings.Split): values containing '=' are truncated or rejected"
+						}
+						r.Check(okV, "C10-R6", cst, p.Pos(a.Instr.Pos()), why, why)
+						// R7: taking the next token must not depend on its content
+						if u, isU := sv.(*ssa.UnOp); isU && okV {
+							var consume ssa.Instruction
+							for _, rr := range *cell.Referrers() {
+								if st, ok := rr.(*ssa.Store); ok && st.Val == ssa.Value(u) {
+									consume = st
+								}
+							}
+							if consume != nil {
+								var dep []string
+								for _, b := range f.Blocks {
+									iff, ok := b.Instrs[len(b.Instrs)-1].(*ssa.If)
+									if !ok {
+										continue
+									}
+									inspects := false
+									// only the *next* token counts: a string loaded from args after args was advanced past the flag token
+									advanced := sx.Cut{Instrs: map[ssa.Instruction]bool{}}
+									sx.Instrs(f, func(i3 ssa.Instruction) {
+										if st, ok := i3.(*ssa.Store); ok {
+											if fa2, ok := st.Addr.(*ssa.FieldAddr); ok && sx.FieldOf(fa2) == args {
+												advanced.Instrs[i3] = true
+											}
+										}
+									})
+									isNext := func(v ssa.Value) bool {
+										ld, ok := v.(*ssa.UnOp)
+										if !ok || !sx.Origins(v)["field:FlagSet."+args.Name()] {
+											return false
+										}
+										hdr := outerLoop(f)
+										if hdr == nil {
+											return false
+										}
+										return sx.MustPass(f, hdr.Instrs[0], ld, advanced) && hdr.Instrs[0] != ssa.Instruction(ld)
+									}
+									var look func(v ssa.Value, d int)
+									look = func(v ssa.Value, d int) {
+										if d > 4 || v == nil {
+											return
+										}
+										switch y := v.(type) {
+										case *ssa.Call:
+											if isBuiltin(y, "len") {
+												return // counting tokens is fine
+											}
+											for _, ar := range y.Call.Args {
+												if isStringT(ar.Type()) && isNext(ar) {
+													inspects = true
+												}
+												look(ar, d+1)
+											}
+										case *ssa.BinOp:
+											look(y.X, d+1)
+											look(y.Y, d+1)
+										case *ssa.UnOp:
+											look(y.X, d+1)
+										case *ssa.Index:
+											if isStringT(y.X.Type()) && isNext(y.X) {
+												inspects = true
+											}
+										case *ssa.Lookup:
+											if isStringT(y.X.Type()) && isNext(y.X) {
+												inspects = true
+											}
+										}
+									}
+									look(iff.Cond, 0)
+									if !inspects {
+										continue
+									}
+									for idx := 0; idx < 2; idx++ {
+										if sx.MustPass(f, nil, consume, sx.Cut{Edges: map[sx.Edge]bool{{From: b, Idx: idx}: true}}) {
+											dep = append(dep, p.Pos(iff.Pos()))
+										}
+									}
+								}
+								r.Check(len(dep) == 0, "C10-R7", "taking the next token as the value does not depend on what the token looks like ("+fnName(f)+")", p.Pos(consume.Pos()), "consumed whenever a token is left", "whether the next token is taken as the flag's value depends on its content (test at "+strings.Join(dep, ", ")+"): values that look like flags (-5, -, --) are rejected")
+							}
+						}
+					}
+				}
 			}
 		}
 	}
